@@ -108,7 +108,7 @@ def run(ctx: Any) -> None:
     ctx.extra["body_class_names"] = [c.__name__ for c in classes]
     if len(classes) < 29:
         ctx.inconclusive(f"only {len(classes)} body classes discovered, 29 expected")
-    per = ctx.scale(2000, 48000) // ctx.nshards
+    per = ctx.scale(2000, 480000) // ctx.nshards
     idx = 0
     for cls in classes:
         for i in range(per):
